@@ -227,3 +227,21 @@ Proof.
   - apply map_ext. intros k. lia.
   - destruct r as [|e' r']; [exact I|]. lia.
 Qed.
+
+Theorem loss_no_splice_from_start pm x c0 es :
+  (Z.eqb x C_PIDPAT || pm_mem pm x) = false ->
+  Forall (on_stream c0) es -> received_ok None es ->
+  Forall (fun ev => run (fst ev ++ [snd ev]) /\ inner_non_pusi (fst ev) /\ pusi (snd (snd ev)) = true /\
+                    Forall (on_stream c0) (fst ev))
+         (snd (acc_run_a pm x [] es)).
+Proof.
+  intros Hn Hall Hrec.
+  refine (proj1 (loss_no_splice pm x c0 es [] None Hn Hall _ Hrec)).
+  unfold acc_inv, inner_non_pusi. cbn [tl run]. repeat split; auto.
+Qed.
+
+Lemma gap_arith c k : 0 <= c < 16 -> 1 <= k < 16 ->
+  (c + k + 1) mod 16 <> (c + 1) mod 16 /\ ((c + k + 1) mod 16 = c <-> k = 15).
+Proof.
+  intros Hc Hk. Ltac Zify.zify_post_hook ::= Z.div_mod_to_equations. lia.
+Qed.
